@@ -575,6 +575,16 @@ func colorIndexInverseTransform(t *Transform, yStart, yEnd int, src, dst []uint3
 		countMask := pixelsPerByte - 1
 		bitMask := uint32((1 << bitsPerPixel) - 1)
 
+		if len(src) > 0 && len(dst) > 0 && &src[0] == &dst[0] {
+			// In-place expansion (this is not the first inverse transform):
+			// unpacking writes several output pixels per packed input pixel
+			// and would overwrite packed input it has not read yet. Work from
+			// a copy of the packed rows.
+			packed := make([]uint32, (yEnd-yStart)*VP8LSubSampleSize(width, t.Bits))
+			copy(packed, src)
+			src = packed
+		}
+
 		srcOff := 0
 		dstOff := 0
 		for y := yStart; y < yEnd; y++ {
